@@ -5,7 +5,8 @@ set -u
 mod=$1; pkg=$2; hdir=$3; ffile=$4; tname=$5
 tmp=$(mktemp -d /var/tmp/gocvreplay.XXXXXX)
 trap 'rm -rf "$tmp"' EXIT
-pkgdir=/repo/$mod/$pkg
+repo=${VERIF_REPO:-/repo}
+pkgdir=$repo/$mod/$pkg
 {
   printf '{"Replace":{'
   first=1
@@ -20,4 +21,4 @@ pkgdir=/repo/$mod/$pkg
   printf '"%s/zz_verif_finding_test.go":"%s"' "$pkgdir" "$ffile"
   printf '}}'
 } > "$tmp/ov.json"
-cd /repo/$mod && GOFLAGS=-mod=mod GOPROXY=off go test -overlay "$tmp/ov.json" -vet=off -count=1 -timeout 120s -run "^$tname\$" ./$pkg 2>&1
+cd $repo/$mod && GOFLAGS=-mod=mod GOPROXY=off go test -overlay "$tmp/ov.json" -vet=off -count=1 -timeout 120s -run "^$tname\$" ./$pkg 2>&1
